@@ -1079,9 +1079,7 @@ theorem SameLayout.readPart_eq {m : AbstractModel} {file : Bytes} (L : SameLayou
   unfold readPart
   rw [idx_ok (decls_row m i l hl d mesh hm), R.ok_bind, idx_ok (meshes_row m i l hl d mesh hm),
     R.ok_bind, L.readVertices_eq h i l hl d mesh hm (noWeightsByte4_mesh m hw hl hm), R.ok_bind,
-    idx3_ok hio, R.ok_bind, mulU32_ok _ _ (by rw [h2]; omega), R.ok_bind,
-    addU32_ok _ _ (by rw [hmul]; omega), R.ok_bind, hadd, hmul, hic,
-    Nat.mul_comm _ 2, hread]
+    idx3_ok hio, R.ok_bind, hic, Nat.mul_comm _ 2, hread]
   dsimp only
   rw [R.pure_eq, R.ok_bind, leU16s_flatMap_put, readSubmeshes_eq m h i l hl d mesh hm, R.ok_bind, hsh,
     R.ok_bind, L.readStreams_eq h i l hl d mesh hm, R.ok_bind]
